@@ -715,3 +715,282 @@ func ruleOpenTruncates(c *Ctx, rule string) {
 		c.Fail(rule, "anchor", token.NoPos, "no os.OpenFile for writing found in the module")
 	}
 }
+
+// c08ContentFullyRead (CONTENT-FULLY-READ): a content digest "changes whenever any byte changes" and is "the same for
+// every storage backend" only if every byte the reader hands out is hashed. io.Copy / io.ReadAll guarantee that. A
+// hand-written loop must honour the io.Reader contract: a Read may return n > 0 together with io.EOF (archive, gzip
+// and HTTP readers do; in-memory and file readers do not), so the n bytes have to be consumed before the error is
+// looked at. For every function of the digest packages that takes an io.Reader: the reader is passed to
+// io.Copy/io.CopyBuffer/io.ReadAll, or each direct Read's byte count reaches the hash (a slice bounded by n) in a
+// block that dominates every test of that Read's error.
+func c08ContentFullyRead(c *Ctx) {
+	const rule = "CONTENT-FULLY-READ"
+	c.Rule(rule, "content hashing consumes every byte the reader returns, including bytes returned together with io.EOF", 1)
+	p := c.P
+	n := 0
+	for _, rel := range []string{"private/pkg/shake256", "private/bufpkg/bufcas"} {
+		pk := p.Pkg(rel)
+		if pk == nil {
+			continue
+		}
+		for _, sf := range p.SSAFuncsOf([]*packages.Package{pk}) {
+			var rd *ssa.Parameter
+			for _, prm := range sf.Params {
+				if namedPath(prm.Type()) == "io.Reader" {
+					rd = prm
+				}
+			}
+			if rd == nil || sf.Blocks == nil {
+				continue
+			}
+			copies, reads, bad := 0, 0, 0
+			for _, f := range allSSAFuncs(sf) {
+				for _, call := range callsIn(f) {
+					if fn := staticCalleeObj(call.Call); fn != nil && fn.Pkg() != nil && fn.Pkg().Path() == "io" && (fn.Name() == "Copy" || fn.Name() == "CopyBuffer" || fn.Name() == "ReadAll" || fn.Name() == "CopyN") {
+						for _, a := range call.Call.Args {
+							if dependsOnValue(a, rd) {
+								copies++
+							}
+						}
+					}
+					if call.Call.IsInvoke() && call.Call.Method.Name() == "Read" && dependsOnValue(call.Call.Value, rd) {
+						reads++
+						cv, ok := call.Value.(*ssa.Call)
+						if !ok {
+							bad++
+							continue
+						}
+						var nVal, errVal ssa.Value
+						for _, ref := range *cv.Referrers() {
+							if ex, ok := ref.(*ssa.Extract); ok {
+								if ex.Index == 0 {
+									nVal = ex
+								} else {
+									errVal = ex
+								}
+							}
+						}
+						// uses of n as a slice bound
+						var useBlocks []*ssa.BasicBlock
+						if nVal != nil {
+							for _, b := range f.Blocks {
+								for _, ins := range b.Instrs {
+									if sl, ok := ins.(*ssa.Slice); ok && sl.High == nVal {
+										useBlocks = append(useBlocks, b)
+									}
+								}
+							}
+						}
+						okRead := len(useBlocks) > 0
+						if errVal != nil {
+							for _, b := range f.Blocks {
+								i := ifOf(b)
+								if i == nil {
+									continue
+								}
+								if x, _, isNil := nilCompare(i.Cond); !isNil || stripConv(x) != errVal {
+									continue
+								}
+								dominated := false
+								for _, ub := range useBlocks {
+									if ub == b || ub.Dominates(b) {
+										dominated = true
+									}
+								}
+								if !dominated {
+									okRead = false
+								}
+							}
+						}
+						if !okRead {
+							bad++
+						}
+					}
+				}
+			}
+			if copies == 0 && reads == 0 {
+				continue // the reader is only handed on
+			}
+			n++
+			c.Ob(rule, relPkg(pk.PkgPath)+"."+sf.Name(), sf.Pos(), bad == 0, true, "%d io.Copy/ReadAll of the reader, %d direct Read loop(s) of which %d look at the error before consuming the n bytes", copies, reads, bad)
+		}
+	}
+	if n == 0 {
+		c.Fail(rule, "anchor", token.NoPos, "no function consuming an io.Reader found in shake256/bufcas")
+	}
+}
+
+// c08SortOwnSlice (SORT-OWN-SLICE): "the canonical manifest text of any file set parses back to an equal manifest" and
+// the b5 construction (SHAKE256 over the *path-sorted* manifest) both rest on a manifest keeping its order for its
+// whole life. An accessor that hands out the object's own backing slice makes that order hostage to every caller: an
+// in-place sort (sort.*, slices.Sort*, slices.Reverse) applied directly to such a result reorders the object itself.
+// For the content-addressing packages: the slice handed to an in-place sorter is never the direct result of a method
+// whose implementation(s) in the module return a field of the receiver (instead of a fresh copy).
+func c08SortOwnSlice(c *Ctx) {
+	const rule = "SORT-OWN-SLICE"
+	c.Rule(rule, "in-place sorts in the digest packages never reorder a slice owned by another object", 3)
+	p := c.P
+	isInPlaceSorter := func(fn *types.Func) bool {
+		if fn == nil || fn.Pkg() == nil {
+			return false
+		}
+		switch fn.Pkg().Path() {
+		case "sort":
+			return fn.Name() != "Search" && !strings.HasPrefix(fn.Name(), "Search") && !strings.HasSuffix(fn.Name(), "AreSorted") && fn.Name() != "IsSorted"
+		case "slices":
+			return (strings.HasPrefix(fn.Name(), "Sort") && fn.Name() != "Sorted" && fn.Name() != "SortedFunc" && fn.Name() != "SortedStableFunc") || fn.Name() == "Reverse"
+		}
+		return false
+	}
+	// does a module method return a field of its receiver?
+	returnsOwnField := func(m *ssa.Function) bool {
+		if m == nil || m.Blocks == nil || m.Signature.Recv() == nil || len(m.Params) == 0 {
+			return false
+		}
+		own := false
+		for _, r := range returnsOf(m) {
+			if len(r.Results) == 0 {
+				continue
+			}
+			v := stripConv(r.Results[0])
+			if u, ok := v.(*ssa.UnOp); ok && u.Op == token.MUL {
+				if fa, ok := u.X.(*ssa.FieldAddr); ok && dependsOnValue(fa.X, m.Params[0]) {
+					own = true
+				}
+			}
+		}
+		return own
+	}
+	n := 0
+	for _, rel := range []string{"private/bufpkg/bufcas", "private/bufpkg/bufmodule", "private/pkg/shake256"} {
+		pk := p.Pkg(rel)
+		if pk == nil {
+			continue
+		}
+		for _, sf := range p.SSAFuncsOf([]*packages.Package{pk}) {
+			for _, f := range allSSAFuncs(sf) {
+				for _, call := range callsIn(f) {
+					if !isInPlaceSorter(staticCalleeObj(call.Call)) || len(call.Call.Args) == 0 {
+						continue
+					}
+					n++
+					arg := stripConv(call.Call.Args[0])
+					// a local captured by the less-closure lives in a cell: look at what was stored into it
+					if u, ok := arg.(*ssa.UnOp); ok && u.Op == token.MUL {
+						if al, ok := u.X.(*ssa.Alloc); ok {
+							var stored []ssa.Value
+							for _, ref := range *al.Referrers() {
+								if st, ok := ref.(*ssa.Store); ok && st.Addr == ssa.Value(al) {
+									stored = append(stored, stripConv(st.Val))
+								}
+							}
+							if len(stored) == 1 {
+								arg = stored[0]
+							}
+						}
+					}
+					owned := ""
+					if src, ok := arg.(*ssa.Call); ok {
+						if src.Call.IsInvoke() {
+							// every implementation of the method in the module
+							for _, impl := range p.SSAFuncsOf(p.ModulePkgs()) {
+								if impl.Signature.Recv() != nil && impl.Name() == src.Call.Method.Name() && types.Identical(impl.Signature.Results(), src.Call.Method.Type().(*types.Signature).Results()) {
+									if it, ok := src.Call.Value.Type().Underlying().(*types.Interface); ok && types.Implements(impl.Signature.Recv().Type(), it) && returnsOwnField(impl) {
+										owned = ssaFuncName(impl)
+									}
+								}
+							}
+						} else if callee := src.Call.StaticCallee(); callee != nil && returnsOwnField(callee) {
+							owned = ssaFuncName(callee)
+						}
+					}
+					c.Ob(rule, fmt.Sprintf("%s/sort#%d", ssaFuncName(f), n), call.Pos(), owned == "", true, "the slice sorted in place is the caller's own (not the backing slice returned by %s): %v", owned, owned == "")
+				}
+			}
+		}
+	}
+}
+
+// c08CanonicalString (CANONICAL-STRING): digests are compared, sorted, written to buf.lock and - for b5 - *hashed*
+// through their string form. That form must be a function of the digest's type and bytes alone: the cached string of
+// a digest value is rendered from the decoded bytes (hex encoding) and never copied from the text that was parsed,
+// which may spell the same bytes differently (upper-case hex decodes fine). Decided on SSA: no store into a string
+// field of a digest struct depends on a string parameter of the storing function.
+func c08CanonicalString(c *Ctx) {
+	const rule = "CANONICAL-STRING"
+	c.Rule(rule, "a digest's cached string form is rendered from its bytes, never copied from parsed input", 1)
+	p := c.P
+	n := 0
+	for _, rel := range []string{"private/bufpkg/bufcas", "private/bufpkg/bufmodule", "private/pkg/shake256"} {
+		pk := p.Pkg(rel)
+		if pk == nil {
+			continue
+		}
+		for _, sf := range p.SSAFuncsOf([]*packages.Package{pk}) {
+			for _, b := range sf.Blocks {
+				for _, ins := range b.Instrs {
+					st, ok := ins.(*ssa.Store)
+					if !ok {
+						continue
+					}
+					fa, ok := st.Addr.(*ssa.FieldAddr)
+					if !ok {
+						continue
+					}
+					pt, ok := fa.X.Type().Underlying().(*types.Pointer)
+					if !ok || !strings.Contains(strings.ToLower(namedName(pt.Elem())), "digest") {
+						continue
+					}
+					fld := pt.Elem().Underlying().(*types.Struct).Field(fa.Field)
+					if bt, ok := fld.Type().Underlying().(*types.Basic); !ok || bt.Kind() != types.String {
+						continue
+					}
+					n++
+					fromParam := ""
+					for _, prm := range sf.Params {
+						if bt, ok := prm.Type().Underlying().(*types.Basic); ok && bt.Kind() == types.String && dependsOnValue(st.Val, prm) {
+							// a parameter that only reaches the value through a decoding call is fine: require a direct
+							// (call-free) dependence
+							direct := false
+							var walk func(v ssa.Value, depth int)
+							seen := map[ssa.Value]bool{}
+							walk = func(v ssa.Value, depth int) {
+								if v == nil || seen[v] || depth > 12 {
+									return
+								}
+								seen[v] = true
+								if v == ssa.Value(prm) {
+									direct = true
+									return
+								}
+								switch x := v.(type) {
+								case *ssa.BinOp:
+									walk(x.X, depth+1)
+									walk(x.Y, depth+1)
+								case *ssa.Phi:
+									for _, e := range x.Edges {
+										walk(e, depth+1)
+									}
+								case *ssa.Slice:
+									walk(x.X, depth+1)
+								case *ssa.ChangeType:
+									walk(x.X, depth+1)
+								case *ssa.Convert:
+									walk(x.X, depth+1)
+								}
+							}
+							walk(st.Val, 0)
+							if direct {
+								fromParam = prm.Name()
+							}
+						}
+					}
+					c.Ob(rule, fmt.Sprintf("%s/%s.%s", ssaFuncName(sf), namedName(pt.Elem()), fld.Name()), st.Pos(), fromParam == "", true, "the string form stored in %s.%s is computed, not the text of parameter %q: %v", namedName(pt.Elem()), fld.Name(), fromParam, fromParam == "")
+				}
+			}
+		}
+	}
+	if n == 0 {
+		c.Fail(rule, "anchor", token.NoPos, "no string field store into a digest struct found")
+	}
+}
